@@ -468,6 +468,12 @@ pub fn c02(o: &Opts, t: &mut Tracer) -> Value {
                 orig.push(("authorization".into(), b"Basic two".to_vec()));
             }
         }
+        if depth > 0 && i % 3 != 0 {
+            // the caller's own credentials for the redirected request: effective headers like any other added one
+            added.insert(added.len() / 2, ("cookie".into(), b"set=by-caller".to_vec()));
+            added.push(("Authorization".into(), b"Bearer set-by-caller".to_vec()));
+            t.class("c02:credentials-added-on-redirected");
+        }
         let s = ReqSpec { method: method.into(), version, uri, orig, added, despite, api, hops, policy_same_host, despite_first: i % 4 < 2 };
         t.sig(format!("c02/{}/{}/{}/{}/{}/{}", method, version, api, depth, norig.min(13), nadded.min(7)));
         exercise(t, &s, &mut rng, if o.quick() { 5 } else { 8 }, true, "c02");
@@ -478,13 +484,13 @@ pub fn c02(o: &Opts, t: &mut Tracer) -> Value {
 pub fn c16(o: &Opts, t: &mut Tracer) -> Value {
     let mut rng = rng_for(o.seed, 0xC16);
     let nflows = if o.quick() { 300 } else { 8000 };
-    let special: [(&str, &[u8]); 14] = [
+    let special: [(&str, &[u8]); 18] = [
         ("cookie", b"jar=1"), ("authorization", b"Bearer target-token"), ("content-length", b"0"), ("host", b"override.test"),
         ("connection", b"close"), ("Cookie", b"second=2"), ("x-1", b"one"), ("accept", b"*/*"),
         ("cookie", b"name=caf\xe9"), ("authorization", b"Basic \xff\xfe\x80"),
         // the very values the original request carried, set again by the caller
         ("cookie", b"orig-cookie=1"), ("authorization", b"Basic b3JpZw=="), ("x-keep", b"k"),
-        ("transfer-encoding", b"chunked"),
+        ("transfer-encoding", b"chunked"), ("expect", b"100-continue"), ("Expect", b"100-continue"), ("connection", b"keep-alive"), ("te", b"trailers"),
     ];
     for i in 0..nflows {
         let depth = i % 4;
@@ -499,6 +505,12 @@ pub fn c16(o: &Opts, t: &mut Tracer) -> Value {
             orig.push(("content-length".into(), b"0".to_vec()));
         }
         orig.extend(gen_headers(&mut rng, i % 5));
+        let orig_host = i % 7 >= 5;
+        if orig_host {
+            // an explicit Host among the original headers (virtual host): still an original header, after the added ones
+            orig.insert(i % 3, ("host".into(), b"virtual.test".to_vec()));
+            t.class("c16:explicit-original-host");
+        }
         let nadd = match i % 8 { 0 => 0, 1 => 1, 2 => 58, _ => rng.gen_range(1..9) };
         let mut added: Vec<(String, Vec<u8>)> = vec![];
         let mut have_host = false;
@@ -510,7 +522,7 @@ pub fn c16(o: &Opts, t: &mut Tracer) -> Value {
             let (n, v) = if k % 3 == 0 || nadd < 4 { special[rng.gen_range(0..special.len())] } else { ("x-n", &b"n"[..]) };
             // keep the request valid (C17): one Host, one Content-Length, no body framing on bodiless methods
             if n == "host" {
-                if have_host { continue; }
+                if have_host || orig_host { continue; }
                 have_host = true;
             }
             if n == "content-length" {
